@@ -3,6 +3,8 @@ import HdVerif.Proofs.PixelPipeline
 import HdVerif.Proofs.PixelTie
 import HdVerif.Generated.T6g
 import HdVerif.Generated.T6i
+import HdVerif.Generated.T6p
+import HdVerif.Generated.T6q
 /-! # C06  Pixel transforms follow the DICOM pipeline and the tri-state flags
 
 Property theorems only.  Definitions under `HdVerif.Gen` are regenerated from /repo's current source on
@@ -941,6 +943,102 @@ example : folded { modality := .none, voi := .window .linear (21/2) 1, rwvm := .
         ⟨false, false, true, false, false, false⟩ 11 = .ok (.val 1) := by decide +kernel
 example : folded { modality := .none, voi := .window .linear (21/2) 1, rwvm := .none, imin := 0, imax := 255, lo := 0, hi := 1 }
         ⟨false, false, true, false, false, false⟩ 10 = .ok (.val 0) := by decide +kernel
+
+
+/-! ## Output type rules and the order of the steps (regenerated T6p, T6q)
+
+What `__init__` does with the folded transform depending on the pixel type and the requested output type, and in which
+order `__call__` runs its steps - both regenerated from the current source.  `outputRules` takes as inputs which effective
+representation the folding produced (table / slope-intercept / window), whether a colour manager exists, the dtype kinds
+and `np.can_cast(input, output, 'safe')` (numpy's, a parameter).  Tie C: `narrow` grid (L0: a value that does not fit is
+refused, never wrapped) and the `outrules` comparison of the regenerated function with the attributes of real transform
+objects (L2). -/
+
+/-- the regenerated block in closed form: refused iff a table meets floating-point pixels or a window meets a non-float
+    output type; otherwise (table cast eagerly, slope / intercept kept, `_check_rescale_dtype` called, slope / intercept cast,
+    final cast range-checked, colour output) -/
+theorem output_rules_closed_form (hasLut hasCm differs inFloat hasSi siId hasWin : Bool) (ok ik : String) (safe : Bool) (ct : String) :
+    outputRules hasLut hasCm differs inFloat hasSi siId hasWin ok ik safe ct =
+      if hasLut && inFloat then .error .value
+      else if hasWin && (ok != "f") then .error .value
+      else .ok (hasLut && !hasCm && differs, hasSi && !siId, hasSi && !siId, hasSi && !siId,
+                !hasLut && !(hasSi && !siId) && !hasWin && (ok == "u" || ok == "i") && (ik == "u" || ik == "i") && !safe,
+                ct == "COLOR" || (ct == "PALETTE_COLOR" && hasLut)) := by
+  unfold outputRules
+  cases hasLut <;> cases hasCm <;> cases differs <;> cases inFloat <;> cases hasSi <;> cases siId <;> cases hasWin <;> simp
+
+/-- **Stored values cast directly to a narrower integer type are range-checked - exactly then.**  The final cast is
+checked iff no transform remains (an identity rescale that is PRESENT counts as none: it is dropped before the decision -
+seeded R4C06-2 moved the decision in front of the drop), both types are integer types and numpy cannot cast safely. -/
+theorem output_range_checked_iff (hasLut hasCm differs inFloat hasSi siId hasWin : Bool) (ok ik : String) (safe : Bool) (ct : String)
+    (r : Bool × Bool × Bool × Bool × Bool × Bool)
+    (h : outputRules hasLut hasCm differs inFloat hasSi siId hasWin ok ik safe ct = .ok r) :
+    r.2.2.2.2.1 = true ↔
+      (hasLut = false ∧ (hasSi = false ∨ siId = true) ∧ hasWin = false ∧ (ok = "u" ∨ ok = "i") ∧ (ik = "u" ∨ ik = "i") ∧ safe = false) := by
+  rw [output_rules_closed_form] at h
+  split at h
+  · cases h
+  · split at h
+    · cases h
+    · injection h with h
+      subst h
+      cases hasLut <;> cases hasSi <;> cases siId <;> cases hasWin <;> cases safe <;> simp
+
+/-- a VOI window needs a floating-point output type: refused otherwise (never a silently truncated window) -/
+theorem window_needs_float_output (hasLut hasCm differs inFloat hasSi siId : Bool) (ok ik : String) (safe : Bool) (ct : String)
+    (hok : ok ≠ "f") : ∃ e, outputRules hasLut hasCm differs inFloat hasSi siId true ok ik safe ct = .error e := by
+  rw [output_rules_closed_form]
+  have : (ok != "f") = true := by simpa using hok
+  cases hasLut <;> cases inFloat <;> simp [this]
+
+/-- lookup tables are refused on floating-point pixels -/
+theorem table_on_float_pixels_refused (hasCm differs hasSi siId hasWin : Bool) (ok ik : String) (safe : Bool) (ct : String) :
+    outputRules true hasCm differs true hasSi siId hasWin ok ik safe ct = .error .value := by
+  rw [output_rules_closed_form]; rfl
+
+/-- a rescale that remains (not the identity) always goes through `_check_rescale_dtype` (`rescale_dtype_sound`) and is cast to
+    the output type; an identity rescale is dropped -/
+theorem remaining_rescale_is_checked (hasLut hasCm differs inFloat hasSi siId hasWin : Bool) (ok ik : String) (safe : Bool) (ct : String)
+    (r : Bool × Bool × Bool × Bool × Bool × Bool)
+    (h : outputRules hasLut hasCm differs inFloat hasSi siId hasWin ok ik safe ct = .ok r) :
+    (r.2.1 = true ↔ (hasSi = true ∧ siId = false)) ∧ r.2.2.1 = r.2.1 ∧ r.2.2.2.1 = r.2.1 := by
+  rw [output_rules_closed_form] at h
+  split at h
+  · cases h
+  · split at h
+    · cases h
+    · injection h with h
+      subst h
+      cases hasSi <;> cases siId <;> simp
+
+/-- frames come out with a colour axis iff the image is a colour image or a palette colour image whose palette is applied -/
+theorem color_output_iff (hasLut hasCm differs inFloat hasSi siId hasWin : Bool) (ok ik : String) (safe : Bool) (ct : String)
+    (r : Bool × Bool × Bool × Bool × Bool × Bool)
+    (h : outputRules hasLut hasCm differs inFloat hasSi siId hasWin ok ik safe ct = .ok r) :
+    r.2.2.2.2.2 = true ↔ (ct = "COLOR" ∨ (ct = "PALETTE_COLOR" ∧ hasLut = true)) := by
+  rw [output_rules_closed_form] at h
+  split at h
+  · cases h
+  · split at h
+    · cases h
+    · injection h with h
+      subst h
+      simp
+
+/-- **The order of the steps of `__call__` is the pipeline order**: decode, shape check, range check of a real-world map,
+exactly one of table / slope-intercept / window (`tie_applyEff_branch`: first match of the if / elif chain), colour
+management, range check of the final cast, cast.  (Table equality on the regenerated list of steps: a trip-wire - a step
+moved, added or removed changes the list.) -/
+theorem call_order_is_pipeline_order :
+    callOrder = ["decode", "shape-check", "input-range-check", "lut|affine|window", "icc", "output-range-check", "cast", "return"] := by
+  decide
+
+/-- non-vacuity: uint16 pixels read as uint8 with an identity rescale present: checked; with a shifting rescale: not this
+    check (the rescale check is on instead); a window with an integer output type: refused -/
+example : outputRules false false false false true true false "u" "u" false "MONOCHROME" = .ok (false, false, false, false, true, false) := by decide
+example : outputRules false false false false true false false "u" "u" false "MONOCHROME" = .ok (false, true, true, true, false, false) := by decide
+example : ∃ e, outputRules false false false false false false true "u" "u" false "MONOCHROME" = .error e :=
+  window_needs_float_output false false false false false false "u" "u" false "MONOCHROME" (by decide)
 
 /-! ## Tie: the hand-written model uses the expressions of the current source (bridges, `Proofs/PixelTie.lean`) -/
 
